@@ -1241,8 +1241,11 @@ def unit_oracle(case, truth, obs):
         if truth == "iff-return":
             want = o["actual"][0] == "Val" and strict_equal(e, o["actual"][1])
         elif truth == "iff-resource":
-            want = (o["called"] and not o["deleted"] and o["actual"][0] == "Retry"
-                    and strict_equal(e, truthful_strip(o["mat"])))
+            # the property text does not say which outcome class goes with a mutation (the code asks for
+            # Retry): a synthetic observation "mutation + other outcome" has no ground truth
+            if o["called"] and o["actual"][0] != "Retry":
+                return None
+            want = (o["called"] and not o["deleted"] and strict_equal(e, truthful_strip(o["mat"])))
         else:
             return None
         if obs == 2:
